@@ -554,7 +554,8 @@ func (r *RegisteredDecoys) Track(d *DecoyRegistration) error {
 }
 
 // TrackIfNotExists tracks a registration if it is not already tracked and returns a bool
-// indicating whether the registration was already tracked. These are combined to prevent a
+// indicating whether the registration was already tracked (in which case the duplicate is
+// counted on the tracked registration). These are combined to prevent a
 // Time-of-Check-Time-of-Use bug that allows more than one message to be sent to the detector per
 // registration.
 //
@@ -564,6 +565,8 @@ func (r *RegisteredDecoys) TrackIfNotExists(d *DecoyRegistration) (bool, error) 
 	defer r.m.Unlock()
 
 	if reg := r.registrationExists(d); reg != nil {
+		// already tracked: count the duplicate like track does
+		reg.regCount++
 		return true, nil
 	}
 
